@@ -44,7 +44,7 @@ package web
 //@   preserves server.Dataset.fullSyncStarted, server.Dataset.fullSyncID, server.Dataset.fullSyncLease, server.Dataset.fullSyncSeen, server.Dataset.store, server.Dataset.ID, server.Dataset.InternalID, server.Dataset.WriteLock, web.datasetHandler.*
 
 //@ unit (*datasetHandler).processEntities
-//@   prop C09 C15
+//@   prop C09 C15 C01
 //@   ghost acceptedG bool = false
 //@   ghost parserG *server.EntityStreamParser = nil
 //@   at call NewEntityStreamParser#1
@@ -60,7 +60,7 @@ package web
 //@   at call ParseStream#1
 //@     assume forall i int :: 0 <= i && i < len(entities) ==> entities[i] != nil
 //@   at call ParseStream#1 before
-//@     assert [C15:every-request-is-parsed-by-a-new-parser-so-no-namespace-context-is-carried-over] parserG != nil && $arg0 == parserG
+//@     assert [C15,C01:every-request-is-parsed-by-a-new-parser-so-no-namespace-context-is-carried-over] parserG != nil && $arg0 == parserG
 //@     assert [C09:entities-stored-during-a-sync-only-after-the-requests-sync-id-was-accepted] dataset.fullSyncStarted ==> acceptedG
 //@   at call StoreEntities#1 before
 //@     assert [C09:entities-stored-during-a-sync-only-after-the-requests-sync-id-was-accepted] dataset.fullSyncStarted ==> acceptedG
@@ -392,6 +392,10 @@ package web
 //@     ghost pendingG := false
 //@   at call NextOffset#1 before
 //@     assert [C02:every-entry-the-reverse-iterator-moved-past-was-written-before-the-token-is-taken] !pendingG
+//@   at call Write#9 before
+//@     assert [C02:the-reverse-feed-is-closed-without-a-token-only-when-the-iterator-reached-the-start-of-the-feed] tokG == 0
+//@   at call encodeSince#1 before
+//@     assert [C02:position-zero-is-never-handed-out-as-a-reverse-token-because-a-reverse-read-from-zero-starts-at-the-newest-entry] $arg0 != 0
 //@   loop 1
 //@     invariant !pendingG
 //@   at call encodeSince#1 before
